@@ -488,7 +488,7 @@ func ceilDiv(a, b int) int { return (a + b - 1) / b }
 // ---------------------------------------------------------------- run
 
 func run(c *hc.Ctx) error {
-	r := c.Rng
+	r := c.Rng.Fork() // hc.NewRNG(seed) streams of neighbouring seeds are the same sequence shifted by one draw and re-synchronise; a fork lands far away
 	var lines, impls []string
 	add := func(line, impl string) {
 		lines = append(lines, line)
